@@ -27,7 +27,7 @@ CHECKS = {
    "5.3"),
  "C15": (True, "nodemc", "model_checking",
    "bounded exhaustive histories of open/new/forget/heartbeat/block macro-steps/disconnect/restart on a real node with ghost predicates",
-   "Every history of <= 5 (7) letters in four scenarios (life cycle from nothing, mutual close, funding double-spend, unilateral close with HTLC sweeps): NewChannel, ForgetChannel, GetHeartbeat, blocks carrying funding / double-spend / mutual close / sweeps, macro-steps of 1, 98 and 99 empty blocks (straddling the 100-block depth), disconnects and restarts; after every letter each ready channel must be present live and in the store unless a forget was requested and the close is buried >= 100 on the harness's own copy of the best chain; a NewChannel at or below a forgotten id must fail.",
+   "Every history of <= 5 (7) letters in seven scenarios (life cycle from nothing, mutual close, funding double-spend, unilateral close with HTLC sweeps, all outputs swept, three channel ids created / forgotten in any order, a prunable channel with a permanent id), over the plain and the cloud store: NewChannel, ForgetChannel, GetHeartbeat, blocks carrying funding / double-spend / mutual close / sweeps, macro-steps of 1, 98 and 99 empty blocks (straddling the 100-block depth), disconnects and restarts; after every letter each ready channel must be present live and in the store unless a forget was requested and the close is buried >= 100 on the harness's own copy of the best chain; a NewChannel at or below a forgotten id must fail.",
    "Depth-bounded (not closed): the bounded space of histories is covered completely.",
    "6.3"),
  "C13": (True, "chain13", "model_checking",
@@ -57,12 +57,12 @@ CHECKS = {
    "3.3"),
  "C10": (True, "history-engines", "model_checking",
    "refusal monitor (full state snapshot before == after on every error reply) switched on in the history explorations",
-   "Every (reachable state, request) pair of the channel explorations (holder and counterparty side, protocol versions 4-6) whose reply is an error is checked: canonical JSON of all channel slots, node state, tracker and store contents must be identical before and after.",
+   "Every (reachable state, request) pair of the history explorations (channel state machine on holder and counterparty side at protocol versions 4-6, payments, node velocity, chain add/remove with defective requests, node life cycle with blocks, disconnects and the scenarios with permanent channel ids) and every request of the C05 / C07 / C08 grids whose reply is an error is checked: canonical JSON of all channel slots, node state, tracker and store contents must be identical before and after. The channel and node explorations are repeated over the cloud store, where a refused request must also leave no mutation staged for the next request.",
    "Storage-backend failures are not injected. Successors of a state-corrupting violation are not explored.",
    "5.1"),
  "C11": (True, "history-engines", "fault_enumeration",
    "durability monitor: after every request of every explored history a second signer is restored from a deep copy of the store and compared with the live one",
-   "One crash point after each request of each explored history (accepted or refused): Node::restore_node over a copy of the store, then field-by-field comparison of every channel (setup, enforcement state), tracker, allowlist, invoices and high-water mark.",
+   "One crash point after each request of each explored history and of each C05 / C07 / C08 grid case (accepted or refused): Node::restore_node over a copy of the store, then field-by-field comparison of every channel (setup, enforcement state), tracker, allowlist, invoices and high-water mark; a restore that panics is a violation. Over the cloud store the crash is also placed between prepare and commit of every request (the reply is then never sent, and the restored signer must equal the state before the request).",
    "Crash points are between requests, not inside a store write.",
    "5.2"),
  "C16": (True, "kvvmc", "model_checking",
@@ -77,7 +77,7 @@ CHECKS = {
    "4.1"),
  "C05": (True, "c05", "model_checking",
    "deviation-bounded exhaustive enumeration (d=1 quick, d=2 thorough on the tight policy) of requests on fresh real signers, under checked and wrapping arithmetic, against an independent u128 reference predicate (accepted => within all bounds)",
-   "Bases: 3 policies (default, tight with small distinct bounds, huge channel sizes) x simple / on-chain validator x chain-state use on/off x commitment type x direction x entry point (setup_channel, sign_counterparty_commitment_tx_phase2, validate_holder_commitment_tx_phase2 with harness-made valid signatures) x commitment number 0 / 1. Deviations: commitment type, both delays around the policy range, channel value around the maximum, push value, claimed fee rate, each balance at dust edges / at the values that put the implied fee rate at min-1..max+2 / at 2^32- and 2^64-wrap candidates, added HTLCs at both trim limits, around the in-flight cap and 2^63, HTLC counts around the cap, expiries around height+delay and 500000000, funding depth / close seen, commitment number. Every case is executed on a fresh signer (blocks fed through the tracker for the on-chain validator) and the reference predicate is evaluated independently.",
+   "Bases: 3 policies (default, tight with small distinct bounds, huge channel sizes) x simple / on-chain validator x chain-state use on/off x commitment type x direction x entry point (setup_channel, sign_counterparty_commitment_tx_phase2, validate_holder_commitment_tx_phase2 with harness-made valid signatures) x commitment number 0 / 1. Deviations: commitment type, both delays around the policy range, channel value around the maximum, push value, claimed fee rate, each balance at dust edges / at the values that put the implied fee rate at min-1..max+2 / at 2^32- and 2^64-wrap candidates, added HTLCs at both trim limits, around the in-flight cap and 2^63, HTLC counts around the cap, expiries around height+delay and 500000000, funding depth / close seen, commitment number. Further bases put the other side one commitment ahead while the funding is confirmed (and disconnect the funding block again for depth 0). Every case is executed on a fresh signer (blocks fed through the tracker for the on-chain validator) and the reference predicate is evaluated independently; after a refused setup the slot must still be a stub and the identical request must be refused again, otherwise the case counts as accepted.",
    "Only accepted-and-outside-a-bound is a violation (the signer may be stricter). The claimed feerate is constrained through the trim limit only, as in the code.",
    "4.2"),
  "C07": (True, "c07", "model_checking",
@@ -87,7 +87,7 @@ CHECKS = {
    "4.3"),
  "C08": (True, "c08", "model_checking",
    "deviation-bounded exhaustive enumeration (d=1 quick, d=2 thorough) of on-chain transactions on fresh real nodes through Node::check_onchain_tx and Approve::handle_proposed_onchain (recording approver), under checked and wrapping arithmetic, against an independent output classifier and a u128 fee bound",
-   "Bases: a wallet spend (change + allowlisted destination), a single-channel funding with change, a two-channel funding from two inputs x 2 policies (max fee rate 333333 / 5000 sat per kw, daily / hourly 3000 sat fee velocity) x 3 allowlists (foreign address; + the wallet's own change address; + a foreign xpub and the node's own xpub) x 2 entry points. Deviations: each output replaced by every other class (wallet native / wrapped / taproot at the right, wrong or no path; allowlisted script with and without path; xpub-derived at the right, wrong or no path; foreign with and without path; funding output breaking one rule: value +-1 / +100000, script of other keys, inbound, push, initial commitment not counter-signed, channel already advanced), outputs added / dropped / zero / 2^63 / 2^64-1, a third channel funded, segwit and non-segwit inputs added, segwit flags cleared, input values 0 / 2^64-1, version 1 / 3, the non-beneficial value set to 0, around max_rate x weight / 1000 for the unsigned, the signer's and the reference's weight, to every output value (+fee, x2), to 2^32 and 2^64 wrap candidates, the request repeated at once and after an hour. Channels are really created, set up on the transaction's outpoint and (unless the deviation says otherwise) their initial holder commitment validated with harness signatures.",
+   "Bases: a wallet spend (change + allowlisted destination), a single-channel funding with change, a two-channel funding from two inputs x 2 policies (max fee rate 333333 / 5000 sat per kw, daily / hourly 3000 sat fee velocity) x 3 allowlists (foreign address; + the wallet's own change address; + a foreign xpub and the node's own xpub) x 3 entry points (check_onchain_tx, handle_proposed_onchain with a declining / an approving approver). Deviations: each output replaced by every other class (wallet native / wrapped / taproot at the right, wrong or no path; allowlisted script with and without path; xpub-derived at the right, wrong or no path; foreign with and without path; funding output breaking one rule: value +-1 / +100000, script of other keys, inbound, push, initial commitment not counter-signed, channel already advanced), outputs added / dropped / zero / 2^63 / 2^64-1, a third channel funded, segwit and non-segwit inputs added, segwit flags cleared, input values 0 / 2^64-1, version 1 / 3, the non-beneficial value set to 0, around max_rate x weight / 1000 for the unsigned, the signer's and the reference's weight, to every output value (+fee, x2), to 2^32 and 2^64 wrap candidates, the request repeated at once, after an hour, and (22 requests) until the allowance is used up and then again and again one bucket later; a funding base with an unknown destination is run with a declining and an approving operator. Channels are really created, set up on the transaction's outpoint and (unless the deviation says otherwise) their initial holder commitment validated with harness signatures.",
    "A pass requires the reference to hold; a report of unknown destinations must list exactly the reference-unknown outputs, and the approver must be consulted exactly then. What an operator then approves is outside the property.",
    "4.4"),
  "C09": (True, "c09", "model_checking",
